@@ -124,6 +124,9 @@ class SA(np.ndarray):
             return np.float64(r)  # element access of a float array yields a numpy scalar
         return r
 
+    def dot(self, b, out=None):
+        return _wrapres(np.ndarray.dot(self.view(np.ndarray), b))
+
     def tofile(self, fid, sep="", format="%s"):
         if sep == "":
             raise Unmodelled("binary tofile")
@@ -1276,7 +1279,17 @@ class SymIntT(metaclass=_IntMeta):
 
 # patching ----------------------------------------------------------------------
 
+PRINTED = []
+
+
+def _quiet_print(*a, **k):
+    """print() of the pyttb modules: recorded, not written (formatting is not the subject)"""
+    if len(PRINTED) < 1000:
+        PRINTED.append(a)
+
+
 _PATCH_NAMES = {
+    "print": lambda: _quiet_print,
     "np": lambda: fac,
     "accumarray": lambda: accumarray,
     "sparse": lambda: sparse_fac,
@@ -1305,7 +1318,7 @@ def patched(extra=None):
     for m in mods:
         d = m.__dict__
         for name, mkv in names.items():
-            if name in ("float", "int"):
+            if name in ("float", "int", "print"):
                 had = name in d
                 saved.append((d, name, d.get(name), had))
                 d[name] = mkv()
